@@ -12,8 +12,9 @@ Case kinds (spec['kind']):
         with the model's sampling parameters / facet order / counter.
   svg   real SVG write -> read, compared with the model's layout, written coordinates and
         read-back control points.
-  prim  G2 analytic primitive records with random placement: oracle only (the model answers
-        NotImplementedError for these type codes by construction).
+  prim  G2 analytic primitive records with random placement (finite and unbounded variants), read by the real
+        `G2.read` and by the model `g2ReadPrim` (record layout -> factory call of the C13 models -> reparam/reverse/
+        swap); knots and control nets compared to 1e-9 (trigonometric data enter the model as floats).
 
 Oracle (model independent): see `oracle`.
 
@@ -52,7 +53,7 @@ RULE = ('g2w: lists of 1-4 objects, pardim 1-3, dim 2-3, rational/non-rational, 
         'torus/sphere/extrusion records with random rigid placement.  distinct = distinct protocol lines; non-trivial = all but '
         'malformed files.')
 REQUIRED_TAGS = ['g2w', 'g2r', 'spl', 'stl-binary', 'stl-ascii', 'svg', 'prim', 'periodic', 'rational', 'extreme',
-                 'full-mantissa', 'pardim=3', 'malformed', 'stl-volume', 'stl-n=None', 'mixed-magnitude', 'stl-dim2', 'prim-reversed-periodic']
+                 'full-mantissa', 'pardim=3', 'malformed', 'stl-volume', 'stl-n=None', 'mixed-magnitude', 'stl-dim2', 'prim-reversed-periodic', 'prim-unbounded']
 ASSUMPTIONS = ["'%.16g'/float(), '.4f', float32 packing and '%f' are trusted (the model carries exact numbers, the harness rounds)",
                'the seam split of periodic objects, bezier_representation and grid evaluation are performed by the real code on '
                'the harness side before the model is consulted (properties C07, C04/C05, C02)']
@@ -337,8 +338,11 @@ def _prim(rng, kind, swap=None):
         d = ex * rng.choice([1.0, 1.0, 2.0])
         t0 = gen.dyadic(rng, -3, 1)
         t1 = t0 + rng.choice([0.5, 1.0, 2.0, 4.0])
-        p.update(d=d.tolist(), t0=t0, t1=t1)
-        L = ['120 1 0 0', '3', _vec(c), _vec(d), '1', '%r %r' % (t0, t1), str(swap)]
+        fin = int(rng.random() < 0.8)
+        L = ['120 1 0 0', '3', _vec(c), _vec(d), str(fin), '%r %r' % (t0, t1), str(swap)]
+        if not fin:
+            t0, t1 = -UNLIMITED, UNLIMITED
+        p.update(d=d.tolist(), t0=t0, t1=t1, finite=fin)
     elif kind == 'circle':
         L = ['130 1 0 0', '3', repr(r), _vec(c), _vec(ez), _vec(ex), '0 %r' % twopi, str(swap)]
     elif kind == 'arc':
@@ -353,8 +357,12 @@ def _prim(rng, kind, swap=None):
     elif kind == 'cylinder':
         v0 = gen.dyadic(rng, -2, 1)
         v1 = v0 + rng.choice([0.5, 1.0, 3.0])
-        p.update(v0=v0, v1=v1)
-        L = ['260 1 0 0', '3', repr(r), _vec(c), _vec(ez), _vec(ex), '1', '0 %r' % twopi, '%r %r' % (v0, v1), str(swap)]
+        fin = int(rng.random() < 0.8)
+        L = ['260 1 0 0', '3', repr(r), _vec(c), _vec(ez), _vec(ex), str(fin), '0 %r' % twopi] + \
+            (['%r %r' % (v0, v1)] if fin else []) + [str(swap)]
+        if not fin:
+            v0, v1 = -UNLIMITED, UNLIMITED
+        p.update(v0=v0, v1=v1, finite=fin)
     elif kind == 'disc':
         degen = int(rng.random() < 0.5)
         p['degen'] = degen
@@ -364,8 +372,13 @@ def _prim(rng, kind, swap=None):
     elif kind == 'plane':
         u0, v0 = gen.dyadic(rng, -2, 1), gen.dyadic(rng, -2, 1)
         u1, v1 = u0 + rng.choice([0.5, 1.0, 2.0]), v0 + rng.choice([0.5, 1.0, 2.0])
-        p.update(u0=u0, u1=u1, v0=v0, v1=v1)
-        L = ['250 1 0 0', '3', _vec(c), _vec(ez), _vec(ex), '1', '%r %r' % (u0, u1), '%r %r' % (v0, v1), str(swap)]
+        fin = int(rng.random() < 0.8)
+        L = ['250 1 0 0', '3', _vec(c), _vec(ez), _vec(ex), str(fin)] + \
+            (['%r %r' % (u0, u1), '%r %r' % (v0, v1)] if fin else []) + [str(swap)]
+        if not fin:
+            u0 = v0 = -UNLIMITED
+            u1 = v1 = UNLIMITED
+        p.update(u0=u0, u1=u1, v0=v0, v1=v1, finite=fin)
     elif kind == 'torus':
         r1 = rng.choice([0.25, 0.5, 1.0])
         R2 = r1 + rng.choice([0.5, 1.0, 2.0])
@@ -380,16 +393,38 @@ def _prim(rng, kind, swap=None):
         v1 = v0 + rng.choice([0.5, 1.0, 2.0])
         nrm = ez * rng.choice([1.0, 2.0])
         info = gen.basis_info(o['bases'][0])
-        p.update(curve=o, v0=v0, v1=v1, n=nrm.tolist())
+        fin = int(rng.random() < 0.8)
         body = foreign_g2_record(rng, o, 'repr')
         body = [l for l in body if l.strip()][1:]          # drop blank lines and the 100-header
-        L = ['261 1 0 0', '3'] + body + ['', _vec(nrm), '1', '%r %r' % (info['start'], info['end']), '%r %r' % (v0, v1), str(swap)]
+        L = ['261 1 0 0', '3'] + body + ['', _vec(nrm), str(fin), '%r %r' % (info['start'], info['end'])] + \
+            (['%r %r' % (v0, v1)] if fin else []) + [str(swap)]
+        if not fin:
+            v0, v1 = -UNLIMITED, UNLIMITED
+        p.update(curve=o, v0=v0, v1=v1, n=nrm.tolist(), finite=fin)
     else:
         raise ValueError(kind)
     return '\n'.join(L) + '\n', p
 
 
+UNLIMITED = 1e4    # splipy.state.unlimited
+
 PRIMS = ['line', 'circle', 'ellipse', 'cylinder', 'disc', 'plane', 'torus', 'sphere', 'extrusion', 'arc']
+
+
+PI_F, W_F, S2_F = F(math.pi), F(1.0 / math.sqrt(2)), F(math.sqrt(2))
+
+
+def _prim_aux(p):
+    """What the factory models cannot compute in a field (as for C13): pi, 1/sqrt2, sqrt2; (cos, sin) of
+    theta = atan2(n_y, n_x) and phi = atan2(hypot(n_x, n_y), n_z); the norm of the back-rotated x-axis; |z_axis|."""
+    n, x = p['ez'], p['ex']
+    th = math.atan2(n[1], n[0])
+    ph = math.atan2(math.hypot(n[0], n[1]), n[2])
+    ct, st, cp, sp_ = math.cos(th), math.sin(th), math.cos(ph), math.sin(ph)
+    vx, vy = x[0] * ct + x[1] * st, -x[0] * st + x[1] * ct
+    vx = vx * cp - x[2] * sp_
+    lam = math.hypot(vx, vy) or 1.0
+    return [[PI_F, W_F, S2_F], [ct, st, cp, sp_], lam, math.sqrt(sum(t * t for t in n))]
 
 
 def generate(rng, tier):
@@ -585,31 +620,19 @@ def _svg_roundtrip(sp, spec):
 def model_line(s):
     k = s['kind']
     if k == 'g2w':
-        sp = _sp()
-        encs = []
-        for o in s['objs']:
-            try:
-                encs.append(gen.obj_observables(_open_periodic(sp, o)))
-            except Exception:      # the real split failed: the comparison will show the writer failing too
-                encs.append(gen.enc_object(o))
-        return line('g2_write', encs)
-    if k in ('g2r', 'prim'):
+        # the model opens periodic directions itself (C07 model of `split`) before printing
+        return line('g2_write_obj', TOL, [gen.enc_object(o) for o in s['objs']])
+    if k == 'g2r':
         return line('g2_read', TOL, tokenise(s['text']))
+    if k == 'prim':
+        return line('g2_prim', _prim_aux(s['prim']), TOL, tokenise(s['text']))
     if k == 'spl':
         return line('spl_read', TOL, tokenise(s['text'], spl=True))
     if k == 'stl':
         return line('stl_file', _stl_dirs(s))
     if k == 'svg':
-        sp = _sp()
-        from_spec = [np.array(c['cps'], dtype=float).reshape(-1, 2).tolist() for c in s['curves']]
-        bez = []
-        for c in s['curves']:
-            try:
-                bz = _io(sp, 'svg').bezier_representation(gen.mk_object(sp, c)).controlpoints.reshape(-1, 2)
-                bez.append(bz.tolist() if np.isfinite(bz).all() else [])
-            except Exception:
-                bez.append([])
-        return line('svg_roundtrip', s['W'], s['H'], s['m'], from_spec, bez)
+        # the model computes bezier_representation itself (C05 raise_order, C07 split, C04 insert_knot models)
+        return line('svg_roundtrip2', s['W'], s['H'], s['m'], TOL, [gen.enc_object(c) for c in s['curves']])
     raise ValueError(k)
 
 
@@ -658,9 +681,25 @@ def _err_diff(iv, mv):
     return 'model raised %s, impl returned a value' % err_kind(mv)
 
 
-def _cmp_tokens(iv, mv):
+def _cmp_tokens(iv, mv, periodic=()):
+    """File tokens vs model tokens.  Records of non-periodic objects: every number must be the '%.16g' rounding of
+    the model's exact number.  Records of objects with a periodic direction (`periodic[j]` true): the numbers went
+    through the library's float `split`, the model's through the exact one, so they are compared with a
+    rounding-level tolerance relative to the largest number of the record."""
     if len(iv) != len(mv):
         return 'token count: file %d, model %d' % (len(iv), len(mv))
+    # record boundaries on the model side: lines `[i,code] [i,1] [i,0] [i,0]`
+    rec, recs, line_start = -1, [], True
+    for pos, b in enumerate(mv):
+        if line_start and isinstance(b, list) and pos + 4 < len(mv) and all(isinstance(x, list) for x in mv[pos:pos + 4]) \
+                and mv[pos + 4] == 'nl' and [int(x[1]) for x in mv[pos + 1:pos + 4]] == [1, 0, 0]:
+            rec += 1
+        recs.append(rec)
+        line_start = (b == 'nl')
+    scale = {}
+    for r, b in zip(recs, mv):
+        if not isinstance(b, (str, list)):
+            scale[r] = max(scale.get(r, 0.0), abs(float(b)))
     for pos, (a, b) in enumerate(zip(iv, mv)):
         if isinstance(b, str):
             if not (b == 'nl' and a == '\n'):
@@ -671,6 +710,11 @@ def _cmp_tokens(iv, mv):
         else:
             if a == '\n':
                 return 'token %d: file has a line end, model %s' % (pos, b)
+            r = recs[pos]
+            if 0 <= r < len(periodic) and periodic[r]:
+                if abs(float(a) - float(b)) > 1e-12 * max(scale.get(r, 0.0), 1e-300):
+                    return 'token %d: file %r, model %.17g (periodic object, tolerance 1e-12 of %g)' % (pos, a, float(b), scale[r])
+                continue
             want = r16(float(b))
             if float(a) != want:
                 return 'token %d: file %r, model %.17g (=%r after %%.16g)' % (pos, a, float(b), want)
@@ -731,18 +775,18 @@ def _cmp_svg(s, iv, mv):
 
 def compare(s, iv, mv):
     k = s['kind']
-    if k == 'prim':
-        if is_err(mv) and err_kind(mv) == 'NotImplementedError':
-            return None                     # primitives are outside the model by construction (oracle only)
-        return 'model answered %r for a primitive record' % (mv,)
     if isinstance(iv, Err) or is_err(mv):
         return _err_diff(iv, mv)
     if k == 'g2w':
-        return _cmp_tokens(iv, mv)
+        return _cmp_tokens(iv, mv, [not _nonperiodic(o) for o in s['objs']])
     if k == 'g2r':
         return diff(iv, mv, rtol=1e-15, atol=0.0)
     if k == 'spl':
         return diff(iv, [mv], rtol=1e-15, atol=0.0)      # SPL.read returns a one-element list
+    if k == 'prim':
+        # parsed object (knots, control net, flags) vs the model's factory call + post-processing; the
+        # trigonometric data reach the model as floats, hence a rounding-level tolerance
+        return diff(iv, [mv], rtol=1e-9, atol=1e-9)
     if k == 'stl':
         return _cmp_stl(s, iv, mv)
     if k == 'svg':
@@ -1206,6 +1250,8 @@ def tags(s, res):
         out.append('prim=' + s['prim']['type'])
         if s['prim']['type'] in ('circle', 'ellipse') and s['prim']['swap']:
             out.append('prim-reversed-periodic')
+        if s['prim'].get('finite') == 0:
+            out.append('prim-unbounded')
     if k == 'stl' and any(np.array(o['cps']).shape[-1] - int(o['rational']) == 2 for o in objs):
         out.append('stl-dim2')
     return sorted(set(out))
